@@ -769,6 +769,15 @@ class _MissingImportFinder:
             for i in node.kw_defaults:
                 if i:
                     self.visit(i)
+            # Annotations are evaluated in the enclosing scope, too, before
+            # any parameter is bound: in ``def f(json, y: json.Y)`` the
+            # annotation reads the global ``json``, not the parameter.
+            for arg in (node.posonlyargs + node.args
+                        + ([node.vararg] if node.vararg else [])
+                        + node.kwonlyargs
+                        + ([node.kwarg] if node.kwarg else [])):
+                if arg.annotation:
+                    self.visit(arg.annotation)
         # Store arg names.
         self.visit(node.args)
         self.visit(node.kwonlyargs)
@@ -972,8 +981,8 @@ class _MissingImportFinder:
 
     def visit_arg(self, node):
         assert node._fields == ('arg', 'annotation', 'type_comment'), node._fields
-        if node.annotation:
-            self.visit(node.annotation)
+        # The annotation has been visited by visit_arguments, in the enclosing
+        # scope.
         # Treat it like a Name node would from Python 2
         self._visit_fullname(node.arg, ast.Param())
         self._visit_typecomment(node.type_comment)
